@@ -117,6 +117,11 @@ func (db *DB) GetBucket(i uint) (*Bucket, error) {
 		return nil, fmt.Errorf("out of bounds bucket index: %d >= %d", i, db.Header.NumBuckets)
 	}
 
+	// The entry stride (hash + value) is kept in a uint8.
+	if db.Header.ValueSize > maxValueSize {
+		return nil, fmt.Errorf("unsupported value size %d", db.Header.ValueSize)
+	}
+
 	// Fill bucket handle.
 	bucket := &Bucket{
 		BucketDescriptor: BucketDescriptor{
@@ -129,6 +134,10 @@ func (db *DB) GetBucket(i uint) (*Bucket, error) {
 	readErr := bucket.BucketHeader.readFrom(db.Stream, i)
 	if readErr != nil {
 		return nil, readErr
+	}
+	// The hash length comes from the file: it must leave room for the value inside one entry.
+	if int(bucket.HashLen)+int(bucket.OffsetWidth) > int(bucket.Stride) {
+		return nil, fmt.Errorf("corrupt bucket header: hash length %d does not fit entry stride %d", bucket.HashLen, bucket.Stride)
 	}
 	bucket.Entries = io.NewSectionReader(db.Stream, int64(bucket.FileOffset), int64(bucket.NumEntries)*int64(bucket.Stride))
 	if db.prefetch {
@@ -203,7 +212,8 @@ func (b *Bucket) Load(batchSize int) ([]Entry, error) {
 	if b.NumEntries > maxEntriesPerBucket {
 		return nil, fmt.Errorf("refusing to load bucket with %d entries", b.NumEntries)
 	}
-	entries := make([]Entry, 0, b.NumEntries)
+	// NumEntries comes from the file: do not pre-allocate more than a batch before any entry is read.
+	entries := make([]Entry, 0, minInt64(int64(b.NumEntries), int64(batchSize)))
 
 	stride := int(b.Stride)
 	buf := make([]byte, batchSize*stride)
